@@ -84,6 +84,8 @@ type rig struct {
 	wedged bool
 }
 
+var directRigs atomic.Int32
+
 // wedgedOnce stops the run: goroutines stuck in a wedged server stay in the goroutine table.
 var wedgedOnce bool
 
@@ -94,7 +96,8 @@ func newRig(direct bool) (*rig, error) {
 		return nil, err
 	}
 	if direct {
-		s, err := shimagent.New(shimagent.Option{Address: sock})
+		// either mode of the shim: waiting is the same in both
+		s, err := shimagent.New(shimagent.Option{Address: sock, NoUpstream: directRigs.Add(1)%2 == 0})
 		if err != nil {
 			return nil, err
 		}
